@@ -98,7 +98,7 @@ func NewContractDB() *ContractDB {
 	return &ContractDB{Funcs: map[string]*FuncContract{}, Specs: map[string]*SpecFunc{}, Preds: map[string]*Pred{}, Lemmas: map[string]*Lemma{}, Regions: map[string][]string{}}
 }
 
-var topKW = map[string]bool{"spec": true, "pred": true, "lemma": true, "axiom": true, "func": true, "assumed": true, "region": true, "guarded": true, "props": true}
+var topKW = map[string]bool{"spec": true, "pred": true, "def": true, "lemma": true, "axiom": true, "func": true, "assumed": true, "region": true, "guarded": true, "props": true}
 var clauseKW = map[string]bool{"requires": true, "ensures": true, "modifies": true, "nopanic": true, "nooverflow": true, "inline": true, "loop": true, "use": true, "mode": true, "by": true, "prop": true, "pure": true, "ghost": true}
 
 type rawItem struct {
@@ -214,7 +214,7 @@ func (db *ContractDB) LoadContracts(path, pkgPath string) error {
 		switch it.kw {
 		case "props":
 			props = strings.Fields(it.head)
-		case "spec", "pred":
+		case "spec", "pred", "def":
 			// name(params) [ret] = body
 			eq := strings.Index(it.head, "=")
 			// find '=' not part of ==,<=,>=,!= : the first " = "
